@@ -42,6 +42,20 @@ ChunkStore::ChunkStore(Config config)
         storage_root_ = std::filesystem::path(config.storage_directory.empty() ? "storage" : config.storage_directory);
         if (!ensure_storage_directory()) {
             persistent_enabled_ = false;
+        } else {
+            // Chunk files left behind by an earlier instance (or by a crash in the middle of a store or
+            // wipe) can no longer be served -- their deadlines and keys lived in memory only -- and nothing
+            // would ever expire them.  Wipe them now so no file outlives its chunk.
+            std::error_code ec;
+            std::vector<std::filesystem::path> stale;
+            for (std::filesystem::directory_iterator it(storage_root_, ec), end; !ec && it != end; it.increment(ec)) {
+                if (it->is_regular_file(ec) && it->path().extension() == ".chunk") {
+                    stale.push_back(it->path());
+                }
+            }
+            for (const auto& path : stale) {
+                secure_wipe_file(path);
+            }
         }
     }
 }
